@@ -248,6 +248,18 @@ def classify_path(ap):
             if src[0] == 'ld' and src[1] == args[2]:
                 return 'scan(%s,+%s)' % (fmt, off) + tail
         return 'scan?' + tail
+    conv = [x for x in calls if x[1] in ('strtoul', 'strtol', 'strtoull', 'strtoll')]
+    if conv and len(q) == 1 and not q[0][2]:
+        # strtoul(yytext + k, NULL, 8|16) is sscanf("%o"|"%x") on text the pattern restricts to digits of that base
+        sc = conv[0]
+        args = sc[2]
+        off = next((k for k in (0, 1, 2, 3) if _yytext_plus(args[0], k)), None)
+        src = q[0][1]
+        while src[0] == 'bin' and src[1] in ('trunc', 'sext', 'zext'):
+            src = src[2]
+        if off is not None and len(args) == 3 and args[1] == sym.C0 and args[2] in (('c', 8), ('c', 16)) and src == sc[3].res:
+            return 'scan(%s,+%s)' % ('%o' if args[2][1] == 8 else '%x', off) + tail
+        return 'scan?' + tail
     if ap.returns:
         rv = ap.retval
         r = rv[1] if rv[0] == 'c' else '?'
@@ -309,4 +321,66 @@ def classify_path(ap):
 def classify(model, rule, eof_sc=None):
     """set of classes over all paths of a rule (or of an EOF action)"""
     aps = model.eof_actions[eof_sc] if eof_sc is not None else model.actions[rule]
+    return sorted(set(classify_path(a) for a in aps))
+
+
+# ----------------------------------------------------------------------------
+# input-sensitive view: which paths of a rule's action are consistent with the bytes it matched
+
+def _yytext_index(v):
+    """k if v is the byte yytext[k] (possibly wrapped in an extension), else None"""
+    for k in range(0, 8):
+        if _is_yytext_byte(v, k):
+            return k
+    if v[0] == 'bin' and v[1] in ('trunc',):
+        return _yytext_index(v[2])
+    return None
+
+
+def _sbyte(b):
+    return b - 256 if b >= 128 else b
+
+
+def _in_loop(ins, model=None):
+    f = getattr(ins, 'func', None)
+    if f is None or ins.block is None:
+        return False
+    if isinstance(f, str):
+        return False
+    ex = set(model.stop) if model is not None and f is model.fn else ()
+    return ins.block.label in _cfg.in_loop_blocks(f, exclude_headers=ex)
+
+
+def consistent_with(ap, matched, model=None):
+    """False if some assumption of the action path about a byte of the matched text contradicts `matched`"""
+    n = len(matched)
+    for cn, t, ins in ap.path.assume:
+        if _in_loop(ins, model):
+            continue          # a loop over the text is explored to a bound; its exit test says nothing about this text
+        if cn[0] == 'icmp' and sym.is_const(cn[3]):
+            k = _yytext_index(cn[2])
+            if k is None:
+                continue
+            actual = _sbyte(matched[k]) if k < n else 0      # yytext is NUL-terminated
+            want = cn[3][1]
+            r = {'eq': actual == want, 'ne': actual != want, 'slt': actual < want, 'sle': actual <= want,
+                 'sgt': actual > want, 'sge': actual >= want}.get(cn[1])
+            if r is None:
+                continue
+            if r != t:
+                return False
+        elif cn[0] == 'switch-default':
+            k = _yytext_index(cn[1])
+            if k is None:
+                continue
+            actual = _sbyte(matched[k]) if k < n else 0
+            ex = ap.path.neq.get(cn[1]) or ()
+            if actual in ex:
+                return False
+    return True
+
+
+def classes_for(model, rule, matched):
+    """classes of the action paths of `rule` that are possible when it matched exactly `matched`"""
+    aps = [ap for ap in model.actions[rule] if consistent_with(ap, matched, model)]
     return sorted(set(classify_path(a) for a in aps))
